@@ -7,7 +7,7 @@ CONSTANTS
   FieldKinds = {"Field", "IndexField", "BankField"}
   ScopeOn = TRUE  FieldOn = FALSE  MethodFlags = {1}  StmtKinds = {"call1"}  MaxStmts = 1
   Widths = {}
-  Spine = FALSE
+  ChainItems = 0
   Excluded = {"D1", "D1b", "D2", "D2c", "D3", "D5", "D7", "D8", "D9", "D10", "D11"}
   Emit = FALSE  Bug = "CallsInFirstPass"
 INIT Init
